@@ -1224,9 +1224,16 @@ func sliceIndexes(args []cty.Value) (int, int, bool, error) {
 	list, _ := args[0].Unmark()
 
 	// If it's a tuple then we always know the length by the type, but collections might be unknown or have unknown length
-	if list.Type().IsTupleType() || list.Length().IsKnown() {
+	if list.Type().IsTupleType() {
 		length = list.LengthInt()
 		lengthKnown = true
+	} else if lenVal := list.Length(); lenVal.IsKnown() {
+		// The length can be known although the list itself is not (an
+		// unknown list refined to an exact length), so it is read from
+		// Length rather than LengthInt, which requires a known list.
+		if err := gocty.FromCtyValue(lenVal, &length); err == nil {
+			lengthKnown = true
+		}
 	}
 
 	if args[1].IsKnown() {
